@@ -293,6 +293,8 @@ func checkC18(c *Ctx) {
 	r.Rule("R18a", "every reference target is spelled by the name function of the key its schema is stored under", 8)
 	r.Rule("R18b", "the messages with a component schema are closed under reference edges and contain every RPC's input and output", 8)
 	r.Rule("R18c", "template variables and declared path parameters coincide; parameter locations are constant; path parameters are unconditionally required", 20)
+	r.Rule("R18i", "every key of the paths object begins with a slash, whatever slashes the base path and the method path carry", 10)
+	c18PathKeys(c, "R18i")
 	r.Rule("R18d", "one document per service; operation ids are RPC names", 3)
 	r.Rule("R18e", "all renderings derive from one marshalled document; format vocabulary and extension agree", 3)
 	c18OperationParameters(c)
@@ -940,6 +942,11 @@ func c18PerService(c *Ctx) {
 				if !ok || !strings.HasSuffix(types.ExprString(rs.X), ".Files") {
 					return true
 				}
+				// the loop that generates: its body reaches, through functions of the plugin main, a loop over a file's
+				// services (a helper that merely scans the request's files is not the per-file loop)
+				if !reachesServicesLoop(c, minfo, rs.Body, map[*types.Func]bool{}) {
+					return true
+				}
 				nLoops++
 				bad := ""
 				var bpos token.Pos
@@ -1034,72 +1041,7 @@ func c18PerService(c *Ctx) {
 	r.Check(calls["NewGenerator"] == 1 && calls["Render"] == 1 && calls["NewGeneratedFile"] == 1 && calls["ProcessService"] == 1 && !skip, "R18d",
 		"every service gets its own generator, one rendering and one file", c.P.Pos(rs.Pos()),
 		fmt.Sprintf("the per-service loop (with the local functions it calls) reaches %v (continue/break: %v): a service without a document, or several services in one", calls, skip))
-	// file name: a Sprintf of "%s.openapi.%s" with the service name and an extension local; in the function that holds it
-	// the extension local is "json" under a test of the JSON format (the function is found by this shape, not by name)
-	{
-		okName, okExt := false, false
-		var where *ast.FuncDecl
-		for mfn, decl := range mainDecls {
-			if decl.Body == nil {
-				continue
-			}
-			fnDecl := decl
-			minfo := c.P.DeclPkg[mfn].TypesInfo
-			var extObj types.Object
-			ast.Inspect(fnDecl.Body, func(n ast.Node) bool {
-				if x, ok := n.(*ast.CallExpr); ok {
-					if cal := Callee(minfo, x); cal != nil && cal.Name() == "Sprintf" && len(x.Args) == 3 {
-						if tv, ok := minfo.Types[x.Args[0]]; ok && tv.Value != nil && strings.Trim(tv.Value.ExactString(), `"`) == "%s.openapi.%s" &&
-							strings.Contains(types.ExprString(x.Args[1]), ".Desc.Name()") {
-							if id, ok := ast.Unparen(x.Args[2]).(*ast.Ident); ok {
-								okName = true
-								where = fnDecl
-								extObj = minfo.ObjectOf(id)
-							}
-						}
-					}
-				}
-				return true
-			})
-			if extObj == nil {
-				continue
-			}
-			ast.Inspect(fnDecl.Body, func(n ast.Node) bool {
-				var body []ast.Stmt
-				cond := ""
-				switch x := n.(type) {
-				case *ast.IfStmt:
-					body, cond = x.Body.List, types.ExprString(x.Cond)
-				case *ast.CaseClause:
-					body = x.Body
-					for _, e := range x.List {
-						cond += types.ExprString(e) + " "
-					}
-				default:
-					return true
-				}
-				if !strings.Contains(cond, "FormatJSON") {
-					return true
-				}
-				for _, st := range body {
-					if as, ok := st.(*ast.AssignStmt); ok && len(as.Lhs) == 1 && len(as.Rhs) == 1 {
-						if id, ok := as.Lhs[0].(*ast.Ident); ok && minfo.ObjectOf(id) == extObj {
-							if tv, ok := minfo.Types[as.Rhs[0]]; ok && tv.Value != nil && tv.Value.ExactString() == `"json"` {
-								okExt = true
-							}
-						}
-					}
-				}
-				return true
-			})
-		}
-		pos := ""
-		if where != nil {
-			pos = c.P.Pos(where.Pos())
-		}
-		r.Check(okName && okExt, "R18d", "file name is <Service>.openapi.<ext> with the extension of the format", pos,
-			fmt.Sprintf("output file name: built from the service name and an extension local=%v, the extension is \"json\" under the JSON format=%v", okName, okExt))
-	}
+	c18FileName(c, "R18d")
 	// operationId
 	if pm := c.P.Func(pkgOpenAPI, "Generator.processMethod"); pm != nil {
 		decl := c.P.Decls[pm]
@@ -1338,3 +1280,119 @@ func c18OperationParameters(c *Ctx, rid ...string) {
 }
 
 func init() { props["C18"] = checkC18 }
+
+// c18FileName: the name of a service's document is built from the service name and the format's extension alone.
+func c18FileName(c *Ctx, rid string) {
+	r := c.R
+	mainDecls := c.oaDecls(cmdOpenAPI)
+	// file name: a Sprintf of "%s.openapi.%s" with the service name and an extension local; in the function that holds it
+	// the extension local is "json" under a test of the JSON format (the function is found by this shape, not by name)
+	{
+		okName, okExt := false, false
+		var where *ast.FuncDecl
+		for mfn, decl := range mainDecls {
+			if decl.Body == nil {
+				continue
+			}
+			fnDecl := decl
+			minfo := c.P.DeclPkg[mfn].TypesInfo
+			var extObj types.Object
+			ast.Inspect(fnDecl.Body, func(n ast.Node) bool {
+				if x, ok := n.(*ast.CallExpr); ok {
+					if cal := Callee(minfo, x); cal != nil && cal.Name() == "Sprintf" && len(x.Args) == 3 {
+						if tv, ok := minfo.Types[x.Args[0]]; ok && tv.Value != nil && strings.Trim(tv.Value.ExactString(), `"`) == "%s.openapi.%s" &&
+							strings.Contains(types.ExprString(x.Args[1]), ".Desc.Name()") {
+							if id, ok := ast.Unparen(x.Args[2]).(*ast.Ident); ok {
+								okName = true
+								where = fnDecl
+								extObj = minfo.ObjectOf(id)
+							}
+						}
+					}
+				}
+				return true
+			})
+			if extObj == nil {
+				continue
+			}
+			ast.Inspect(fnDecl.Body, func(n ast.Node) bool {
+				var body []ast.Stmt
+				cond := ""
+				switch x := n.(type) {
+				case *ast.IfStmt:
+					body, cond = x.Body.List, types.ExprString(x.Cond)
+				case *ast.CaseClause:
+					body = x.Body
+					for _, e := range x.List {
+						cond += types.ExprString(e) + " "
+					}
+				default:
+					return true
+				}
+				if !strings.Contains(cond, "FormatJSON") {
+					return true
+				}
+				for _, st := range body {
+					if as, ok := st.(*ast.AssignStmt); ok && len(as.Lhs) == 1 && len(as.Rhs) == 1 {
+						if id, ok := as.Lhs[0].(*ast.Ident); ok && minfo.ObjectOf(id) == extObj {
+							if tv, ok := minfo.Types[as.Rhs[0]]; ok && tv.Value != nil && tv.Value.ExactString() == `"json"` {
+								okExt = true
+							}
+						}
+					}
+				}
+				return true
+			})
+		}
+		pos := ""
+		if where != nil {
+			pos = c.P.Pos(where.Pos())
+		}
+		r.Check(okName && okExt, rid, "file name is <Service>.openapi.<ext> with the extension of the format", pos,
+			fmt.Sprintf("output file name: built from the service name and an extension local=%v, the extension is \"json\" under the JSON format=%v", okName, okExt))
+	}
+}
+
+func reachesServicesLoop(c *Ctx, info *types.Info, n ast.Node, seen map[*types.Func]bool) bool {
+	hit := false
+	ast.Inspect(n, func(m ast.Node) bool {
+		if hit {
+			return false
+		}
+		switch x := m.(type) {
+		case *ast.RangeStmt:
+			if strings.HasSuffix(types.ExprString(x.X), ".Services") {
+				hit = true
+			}
+		case *ast.CallExpr:
+			if cal := Callee(info, x); cal != nil && cal.Pkg() != nil && strings.HasSuffix(cal.Pkg().Path(), cmdOpenAPI) && !seen[cal] {
+				seen[cal] = true
+				if d := c.P.Decls[cal]; d != nil && d.Body != nil && reachesServicesLoop(c, c.P.DeclPkg[cal].TypesInfo, d.Body, seen) {
+					hit = true
+				}
+			}
+		}
+		return true
+	})
+	return hit
+}
+
+// c18PathKeys — R18i. OpenAPI 3.1: every key of the Paths Object begins with "/". The key the generator computes for an
+// operation is observed (extractMethodHTTPInfo interpreted on concrete service/method configurations) for base paths and
+// method paths with and without slashes, empty ones included.
+func c18PathKeys(c *Ctx, rid string) {
+	r := c.R
+	for _, b := range []string{"", "/zqb", "zqb", "/zqb/"} {
+		for _, p := range []string{"/zqp", "zqp/{id}", "zqp", "/", ""} {
+			sc := c03Scenario{Base: b, Cfg: &c03Cfg{Path: p, Method: "GET"}}
+			_, op, _, opos, oerr := c.observeOpenAPI(sc)
+			key := fmt.Sprintf("paths key for base_path %q, path %q begins with /", b, p)
+			if oerr != "" {
+				r.Undec(rid, key, opos, oerr)
+				continue
+			}
+			r.Check(strings.HasPrefix(op, "/"), rid, key, opos,
+				fmt.Sprintf("the operation of a method with path %q under base path %q is filed under the paths key %q, which does not begin with a slash: the document is not a valid OpenAPI 3.1 description (and the key is not the route the servers register)", p, b, op))
+		}
+	}
+}
